@@ -153,12 +153,16 @@ def adfLoaded (p : Pic) (f0 : Font) : LBuf :=
 theorem fontOk_parts (f : Font) (h : fontOk f = true) :
     1 ≤ f.height ∧ f.height ≤ 32 ∧ f.data.length = 256 * f.height ∧ (f.isDefault = true → f = defaultFont) := by
   unfold fontOk at h
-  simp only [Bool.and_eq_true, decide_eq_true_eq, beq_iff_eq, Bool.or_eq_true, Bool.not_eq_true'] at h
-  obtain ⟨⟨⟨h1, h2⟩, h3⟩, h4⟩ := h
+  simp only [Bool.and_eq_true, decide_eq_true_eq, beq_iff_eq] at h
+  obtain ⟨⟨h1, h2⟩, h3⟩ := h
   refine ⟨h1, h2, h3, fun hd => ?_⟩
-  rcases h4 with h4 | h4
-  · rw [hd] at h4; exact absurd h4 (by decide)
-  · exact h4
+  unfold Font.isDefault at hd
+  simp only [Bool.and_eq_true, beq_iff_eq] at hd
+  obtain ⟨⟨hn, hh⟩, hdt⟩ := hd
+  cases f
+  simp only [defaultFont] at *
+  subst hn hh hdt
+  rfl
 
 theorem lookupFont_single (f : Font) : lookupFont [(0, f)] 0 = some f := by
   unfold lookupFont; simp [List.lookup]
